@@ -71,7 +71,7 @@ type Cand struct {
 // CompSpec is a table-driven completer.
 type CompSpec struct {
 	Cands    []Cand   `json:"cands"`
-	Mode     string   `json:"mode"` // "word": engine chosen prefix, "prefix": completer sets PREFIX (last blank-delimited word), "fixed": FixedPrefix taken as suffix of line[:cursor]
+	Mode     string   `json:"mode"`              // "word": engine chosen prefix, "prefix": completer sets PREFIX (last blank-delimited word), "fixed": FixedPrefix taken as suffix of line[:cursor]
 	PrefixN  int      `json:"prefixn,omitempty"` // mode=fixed: PREFIX = last PrefixN runes before the cursor
 	NoSpace  string   `json:"nospace,omitempty"` // runes for NoSpace(); "*" for all
 	List     bool     `json:"list,omitempty"`    // DisplayList()
